@@ -6,6 +6,7 @@ pub fn run(unit: &str, args: &[String]) -> String {
     let flag = |s: &str| args.iter().any(|a| a == s);
     let rep = match unit {
         "bx_writer" => crate::tag_writer::verif_bx_writer::unit_writer(num(0, 3), flag("thorough")),
+        "bx_payload" => crate::tag_writer::verif_bx_writer::unit_payload(),
         "bx_iter_bytes" => crate::tag_iterator::verif_bx_iter::unit_bytes(num(0, 4), flag("thorough")),
         "bx_iter_docs" => crate::tag_iterator::verif_bx_iter::unit_docs(num(0, 3), flag("thorough")),
         "bx_iter_ioerr" => crate::tag_iterator::verif_bx_iter::unit_ioerr(),
